@@ -35,7 +35,8 @@ def one(sid, checks, tier):
             p = sh("timeout", "7200", os.path.join(VERIF, "check"), c, tier, env=env)
             viol = [l for l in p.stdout.splitlines() if l.startswith("VIOLATION ")]
             clauses = sorted({m.group(1) for l in viol for m in [re.search(r"clause=(\S+)", l)] if m})
-            res.append({"check": c, "tier": tier, "exit": p.returncode, "violation_lines": len(viol), "clauses": clauses,
+            ndrift = sum(1 for l in p.stdout.splitlines() if l.startswith("MODEL-DRIFT:"))
+            res.append({"check": c, "tier": tier, "exit": p.returncode, "violation_lines": len(viol), "clauses": clauses, "model_drift_lines": ndrift,
                         "detected": p.returncode == 1 and bool(viol), "first": viol[0][:300] if viol else p.stdout[-300:], "wall_s": round(time.time() - t0, 1),
                         "head": sh("git", "-C", "/repo", "rev-parse", "--short", "HEAD").stdout.strip()})
     finally:
@@ -67,7 +68,7 @@ def main():
             for r in res:
                 ok = r.get("detected")
                 missed += 0 if ok else 1
-                print("%-8s %-4s %-8s %s  %s" % (sid, r.get("check"), r.get("tier", ""), "DETECTED" if ok else "missed  ", (r.get("clauses") or r.get("error") or r.get("first", ""))), flush=True)
+                print("%-8s %-4s %-8s %s  %s %s" % (sid, r.get("check"), r.get("tier", ""), "DETECTED" if ok else "missed  ", (r.get("clauses") or r.get("error") or r.get("first", "")), ("drift=%d" % r["model_drift_lines"]) if r.get("model_drift_lines") else ""), flush=True)
     shutil.rmtree(SCRATCH, ignore_errors=True)
     sys.exit(1 if missed else 0)
 
